@@ -1681,13 +1681,17 @@ class PyCdlib:
 
                 if self.isohybrid_mbr is not None:
                     if enc.platform_id == 0xef:
+                        # An isohybrid that was not asked to support EFI (or
+                        # Mac) has no GPT (or APM) to describe the image in.
                         if num_seen_efi == 0:
-                            self.isohybrid_mbr.update_efi(current_extent,
-                                                          enc.entry.sector_count,
-                                                          self.pvd.space_size * self.logical_block_size)
+                            if self.isohybrid_mbr.efi:
+                                self.isohybrid_mbr.update_efi(current_extent,
+                                                              enc.entry.sector_count,
+                                                              self.pvd.space_size * self.logical_block_size)
                         elif num_seen_efi == 1:
-                            self.isohybrid_mbr.update_mac(current_extent,
-                                                          enc.entry.sector_count)
+                            if self.isohybrid_mbr.mac:
+                                self.isohybrid_mbr.update_mac(current_extent,
+                                                              enc.entry.sector_count)
                         else:
                             raise pycdlibexception.PyCdlibInternalError('Only expected two EFI sections')
                         num_seen_efi += 1
